@@ -10,6 +10,7 @@ import (
 	"path/filepath"
 	"runtime"
 	"runtime/metrics"
+	"sort"
 	"strconv"
 	"strings"
 	"sync"
@@ -101,12 +102,18 @@ func c18LimitFor(pkg string, setting int) int {
 	if setting == 9 {
 		return math.MaxInt32
 	}
+	if setting == 10 { // a negative limit is non-zero: every input is longer than it
+		return -1
+	}
+	if setting == 11 {
+		return math.MinInt
+	}
 	// settings 4..7: limits between the lengths of the package's own text forms (a limit that cuts between the plain
 	// and the URN form of an ID, between the basic and the extended date, inside typical numerals and versions)
 	return map[string][4]int{"date": {8, 9, 12, 40}, "roman": {7, 15, 64, 40}, "sem": {5, 11, 64, 40}, "size": {4, 24, 16, 40}, "uu": {36, 44, 37, 40}}[pkg][(setting-4)%4]
 }
 
-const c18Settings = 10
+const c18Settings = 12
 
 func c18ApplyLimit(setting int) func() {
 	a, b, cc, d, e := date.MaxInputLength, roman.MaxInputLength, sem.MaxInputLength, size.MaxInputLength, uu.MaxInputLength
@@ -343,9 +350,18 @@ func (f *c18Flight) inFlight() []c18InFlight {
 
 // ---- monitor for one call
 
-func containsWindow(msg, input string) (string, bool) {
+func containsWindow(msg, input string, limits ...int) (string, bool) {
 	if len(input) < 8 {
 		return "", false
+	}
+	// the message states the two lengths; their digits are not the input (with limits like -9223372036854775808 an
+	// input made of digits would otherwise "appear" in it)
+	nums := append([]int{date.MaxInputLength, roman.MaxInputLength, sem.MaxInputLength, size.MaxInputLength, uu.MaxInputLength, len(input)}, limits...)
+	sort.Slice(nums, func(i, j int) bool { return len(strconv.Itoa(nums[i])) > len(strconv.Itoa(nums[j])) })
+	for _, n := range nums {
+		if t := strconv.Itoa(n); len(t) >= 8 { // (shorter numbers cannot hold an 8-byte window)
+			msg = strings.ReplaceAll(msg, t, "#")
+		}
 	}
 	step := 1
 	if len(input) > 4096 {
@@ -394,7 +410,7 @@ func c18RereadKept(w *rt.W) {
 			args := rt.Args("entry", e.name, "limit_setting", k.setting, "limit", c18LimitFor(e.pkg, k.setting), "a", k.a, "b", "", "len_a", len(k.a), "message_read_under_limit_setting", readUnder)
 			if panicked {
 				w.Fail("panic-in-error-message:"+e.pkg, "latemsg", args, "panic: "+strings.SplitN(pm, "\n", 2)[0], "a message", "Error() of a retained input-too-long error panicked")
-			} else if win, found := containsWindow(msg, k.a); found {
+			} else if win, found := containsWindow(msg, k.a, c18LimitFor(e.pkg, k.setting)); found {
 				w.Fail("too-long-error-reproduces-input-when-read-later:"+e.pkg, "latemsg", args, clipStr(msg, 400), "a message without the input", "the input-too-long message, read after MaxInputLength was changed, contains the input window "+strconv.Quote(win))
 			}
 			w.ClassN("too-long-error-reread-after-limit-change", 1)
@@ -430,6 +446,12 @@ func c18Call(w *rt.W, fl *c18Flight, ei, setting int, a, b string) {
 		return
 	}
 	limit := c18LimitFor(e.pkg, setting)
+	if limit < 0 && (len(a) == 0 || (e.pair && len(b) == 0)) {
+		// a negative limit is a misconfiguration the statement covers only by the letter ("non-zero"); whether the
+		// empty input counts as "longer" than it is left open. Non-empty inputs are judged.
+		w.DontCare("empty input under a negative limit")
+		return
+	}
 	sentinel := c18TooLong[e.pkg]
 	tooLongA := limit != 0 && len(a) > limit
 	tooLongAny := tooLongA || (e.pair && limit != 0 && len(b) > limit)
@@ -865,9 +887,30 @@ func c18Child(c *rt.Ctx, dir string) {
 				}
 				w.ClassN("retention-monitored-package", 1)
 			}
+			// the same, with one input under 300,000 different rule values (undefined bits included): state kept per
+			// rule value grows with the flags a program happens to pass
+			{
+				before := live()
+				const n = 300000
+				for i := 0; i < n; i++ {
+					_, _ = date.DefaultParser("2021-03-04", date.Rule(i))
+					_, _ = roman.DefaultParser("MCMXCIV", roman.Rule(i))
+					_ = roman.Valid("xiv", roman.Rule(i))
+					_, _ = sem.DefaultParser("v1.2.3-rc.1+b7", sem.Rule(i))
+					_, _ = size.DefaultParser(`{"value":1,"unit":"KiB"}`, size.Rule(i))
+					_, _ = uu.DefaultParser("f81d4fae-7dec-11d0-a765-00a0c91e6bf6", uu.Rule(i))
+				}
+				after := live()
+				w.Eval(6 * n)
+				if after > before && after-before > 4<<20 {
+					w.Fail("memory-retained-per-rule-value", "retention", rt.Args("entry", "DefaultParser of the five packages and roman.Valid", "package", "all", "calls", 6*n, "input_bytes", 0), fmt.Sprintf("live heap grew by %d bytes over %d rule values", after-before, n), "<= 4 MiB", "memory stays reachable per rule value passed: a program that passes computed flags runs away")
+				}
+				w.ClassN("retention-over-rule-values", 1)
+			}
 		})
 	}()
 	c.Require("retention-monitored-package", 5)
+	c.Require("retention-over-rule-values", 1)
 	c.Require("allocation-monitored-call", 100)
 	c.Require("long-pair-monitored-call", 30)
 
@@ -878,7 +921,9 @@ func c18Child(c *rt.Ctx, dir string) {
 		if setting >= 4 {
 			nHostile /= 2
 		}
-		if setting >= 8 { // limits raised to the maximum: a short stream, allocation watched on the first call of every entry point
+		if setting >= 10 {
+			nHostile /= 8
+		} else if setting >= 8 { // limits raised to the maximum: a short stream, allocation watched on the first call of every entry point
 			nHostile /= 8
 			tooMuch := false
 			c.Serial(fmt.Sprintf("limit-raised-to-the-maximum-%d", setting), func(w *rt.W) {
@@ -926,6 +971,9 @@ func c18Child(c *rt.Ctx, dir string) {
 				}
 				// limit contract: lengths around the limit, shaped and marked garbage
 				lens := []int{limit - 1, limit, limit + 1, 10 * limit, limit + 2, 2 * limit}
+				if limit < 0 {
+					lens = []int{0, 1, c18Defaults[pkg], 10 * c18Defaults[pkg]}
+				}
 				if limit > 1<<30 {
 					lens = []int{c18Defaults[pkg], 10 * c18Defaults[pkg], 1000 * c18Defaults[pkg]}
 				}
